@@ -209,7 +209,7 @@ def finish(ctx: Ctx) -> int:
         for i, v in enumerate(ctx.violations):
             key = v["obligation"]
             seen[key] = seen.get(key, 0) + 1
-            if seen[key] > 2 or i > 40:
+            if seen[key] > 2 or (i > 40 and v.get("kind") != "proof-obligation"):  # a failed proof obligation is always named
                 continue
             p = write_replay(ctx, v, i)
             tail = ""
